@@ -413,7 +413,7 @@ func TestC16(t *testing.T) {
 	cfg := sb.LoadConfig("C16")
 	rec := sb.NewRec(cfg)
 	defer rec.Flush()
-	rec.R.Rule = "batches of generated programs (control flow, exceptions in a namespace, expressions, class programs, class hierarchies with dispatch, files with several namespace sections, user-defined attributes), 20 fixed interface-free class chains with every placement of the dispatched methods, plus the statically deterministic corpus files; every program is translated by its own `origami compile` invocation, the batch is built once into one binary, and each program is run compiled and interpreted: stdout, exit status and the location-free diagnostic must be equal. Non-trivial = the interpreted run prints something and the generated Go source uses at least one node constructor (special handler / fast-path node); distinct by program text."
+	rec.R.Rule = "batches of generated programs (control flow, exceptions in a namespace, expressions, class programs, class hierarchies with dispatch, files with several namespace sections, user-defined attributes), 20 fixed interface-free class chains with every placement of the dispatched methods, 20 hand-written programs for the language areas the generators do not reach (float literals, global statement, statics, references, closures, literals in other bases, string escapes, destructuring, constants, generators, null handling, spread / named / default arguments, magic methods, library calls, enums, juggling), plus the statically deterministic corpus files; every program is translated by its own `origami compile` invocation, the batch is built once into one binary, and each program is run compiled and interpreted: stdout, exit status and the location-free diagnostic must be equal. Non-trivial = the interpreted run prints something and the generated Go source uses at least one node constructor (special handler / fast-path node); distinct by program text."
 	dl := time.Now().Add(budget(cfg, 200, 1800))
 	root, _ := os.MkdirTemp("", "c16-")
 	defer os.RemoveAll(root)
@@ -457,6 +457,13 @@ func TestC16(t *testing.T) {
 		})
 		if b == 0 && cfg.Shard == 0 {
 			progs = append(progs, c16FixedHierarchies()...)
+		}
+		if b == 0 {
+			for i, fp := range c16FeaturePrograms() {
+				if i%cfg.NShards == cfg.Shard {
+					progs = append(progs, fp)
+				}
+			}
 		}
 		if b == 0 {
 			files := deterministicCorpus()
